@@ -163,6 +163,38 @@ CLAIMS = {
         "spec comparison only. Known finding: Vidya leaves the hull (residue).",
    ref="DESIGN.md §5 C15"),
 
+ "C05": dict(cat="proof", tech="Lean 4 proofs about hand-written indicator models (composition of realised averages / extremum trackers, invariants lifted over candle lists) + per-step differential replay of every indicator value under the rounding allowance",
+   text="16 of the 36 indicators are modelled (MACD, BollingerBands, Aroon, RSI, Stochastic, Donchian, PriceChannelStrategy, Keltner, Envelopes, "
+        "Ichimoku, CMF, MFI, CMO, TrueStrengthIndex, SMIErgodic, ParabolicSAR) with init/validate and all 15 MA kinds. Theorems (exact arithmetic, "
+        "every stream): MA instances realise their history function for ever (SMA, EMA), MACD = f1 - f2 and signal line = f3 of its history, "
+        "Donchian bounds are extremes of the last n highs/lows from init on, RSI and CMO value formulas behind their guards, MFI's expression "
+        "equals pmf/(pmf+nmf), SAR returns the post-flip state. Every value the real code returns (every indicator, random valid configurations "
+        "via the string setters, 6 candle classes) must lie within the allowance of the exact model's value.",
+   note=COMMON_NOTE + NUM_NOTE + "PARTIAL: 20 indicators (AverageDirectionalIndex and the second tier) have no model and are covered by C08-C11/C13 only; "
+        "for Aroon, Bollinger, Stochastic, Keltner, Envelopes, Ichimoku, CMF, TSI/SMI the whole-history value theorems are not written (model "
+        "validated by the run only). Known finding: configurations using the Vidya average (residue amplification, see C03).",
+   ref="DESIGN.md §5 C05"),
+ "C06": dict(cat="proof", tech="Lean 4 proofs of the signal rules of the indicator models (crossing rule, band touches, counters, SAR flip) + exact differential replay of every signal against the rule applied to the implementation's own values",
+   text="The model's signal functions take the returned values as input; the run applies them to the exact rationals of the floats the real code "
+        "returned, rounding code-formed thresholds (1 - zone) and candle sources as the code does, so every crossing / touch / zone / flip decision "
+        "of the 16 modelled indicators is compared exactly at every step; proportional strengths must hit the quantiser level of the exact argument. "
+        "Theorems: MACD signals are the C14 crossing rule on (macd, signal) and (macd, 0); Donchian / PriceChannel / Envelopes rules as case "
+        "distinctions; Aroon counters count consecutive in-zone steps and reset; SAR signal fires iff the returned trend changed, in its direction, "
+        "for every reachable state.",
+   note=COMMON_NOTE + "PARTIAL: per-indicator rule theorems for RSI/MFI/Stochastic/Keltner/Ichimoku/CMF/CMO/TSI/SMI are not written (they are "
+        "compositions of C14 detectors and C16 subtraction; validated by the run); 20 indicators have no model. Steps after a non-finite value "
+        "and SAR cases after a flip decision within 64 ulp are exempt and counted.",
+   ref="DESIGN.md §5 C06"),
+ "C12": dict(cat="proof", tech="Lean 4 range / ordering proofs on the exact models (quotients of non-negative sums, channel containment, SAR side invariant) + strict range test on the implementation's own values at every step",
+   text="Theorems (exact arithmetic): RSI, MFI values in [0,1] and (P-N)/(P+N) in [-1,1] for non-negative operands; Chande momentum keeps its sums equal to "
+        "window sums of non-negative parts from every invariant state, hence stays in [-1,1]; %K and Aroon in [0,1]; Donchian/price channel "
+        "contain the consumed candle in every reachable state; the returned SAR is never on the wrong side of the candle; Bollinger variance, "
+        "StDev^2, TR >= 0; CLV in [-1,1]. Run: strict interval/order tests (slack C*eps*k*(hi-lo)) on every returned value of the bounded "
+        "indicators incl. non-finite values, volatile->flat->volatile and zero-volume streams; dispersion methods >= 0; CLV/TR on valid candles.",
+   note=COMMON_NOTE + NUM_NOTE + "PARTIAL: floats are outside the theorems - exactly where this property bites: known findings MoneyFlowIndex, "
+        "ChandeMomentumOscillator, RelativeStrengthIndex leave their ranges (even +-inf) through rounding residue behind exact == 0 guards. "
+        "LinearVolatility/MeanAbsDev non-negativity, Keltner/Envelopes ordering, CMF and TSI ranges are run-only.",
+   ref="DESIGN.md §5 C12"),
  "C07": dict(cat="proof", tech="Lean 4 proofs of window locality and exponential forgetting (reduction of every history length to a bounded suffix) + late-position differential run on long streams",
    text="Theorems: after n inputs the window - hence every sliding-window spec - equals that of a fresh instance fed the last inputs "
         "only, for every earlier history; the exponential recurrences restart from their own value and forget the start like "
